@@ -109,3 +109,21 @@ Proof.
     + intros a b Hb E. specialize (Hf (c :: a) b Hb). cbn [rev] in Hf.
       rewrite <- app_assoc in Hf. cbn [app] in Hf. apply Hf. subst s1. reflexivity.
 Qed.
+
+(* the continuation fails at every class prefix: the lazy star fails *)
+Lemma star_l_none k cont cs : forall s p,
+  (forall a b, s = a ++ b -> forallb (cmatch k) a = true ->
+     cont (mkst (rev a ++ p) b cs) = None) ->
+  star_l k p s cs cont = None.
+Proof.
+  induction s as [|c s IH]; intros p H.
+  - cbn [star_l]. assert (H0 : cont (mkst p [] cs) = None) by (apply (H [] []); reflexivity).
+    rewrite H0. reflexivity.
+  - cbn [star_l].
+    assert (H0 : cont (mkst p (c :: s) cs) = None) by (apply (H [] (c :: s)); reflexivity).
+    rewrite H0. destruct (cmatch k c) eqn:Hc; [|reflexivity].
+    apply IH. intros a b E Hall. specialize (H (c :: a) b). cbn [rev] in H.
+    rewrite <- app_assoc in H. cbn [app] in H. apply H.
+    + subst s. reflexivity.
+    + cbn [forallb]. rewrite Hc. exact Hall.
+Qed.
